@@ -45,5 +45,10 @@ mod mkeymap;
 mod output;
 mod util;
 
+#[cfg(all(clap_verif, feature = "help", feature = "wrap_help"))]
+#[doc(hidden)]
+#[path = "verif_hooks.rs"]
+pub mod __verif;
+
 const INTERNAL_ERROR_MSG: &str = "Fatal internal error. Please consider filing a bug \
                                   report at https://github.com/clap-rs/clap/issues";
